@@ -78,7 +78,9 @@ RECURSIVE CollectRuns(_, _, _)
 CollectRuns(i, b, acc) ==
   IF i > b THEN acc
   ELSE LET e == Rec[i] IN
-    IF e.ev = "run" THEN CollectRuns(i + 1, b, Append(acc, [tag |-> e.tag, inp |-> e.input, cfg |-> CfgOf(e.cfg), evs |-> <<>>]))
+    IF e.ev = "run" THEN CollectRuns(i + 1, b, Append(acc, [tag |-> e.tag, inp |-> e.input, cfg |-> CfgOf(e.cfg), evs |-> <<>>,
+                                                                    multi |-> IF "multi" \in DOMAIN e THEN e.multi ELSE FALSE,
+                                                                    stream |-> IF "stream" \in DOMAIN e THEN e.stream ELSE FALSE]))
     ELSE IF e.ev \in {"next", "recover"} /\ acc # <<>> THEN CollectRuns(i + 1, b, [acc EXCEPT ![Len(acc)].evs = Append(@, e)])
     ELSE CollectRuns(i + 1, b, acc)
 \* first non-empty string of a sequence of verdict strings
@@ -95,7 +97,7 @@ Rel(h, runs) ==
                                   ELSE IF ~P08!OnlyRequested(runs[i].evs, runs[i].cfg) THEN "C08: Full/Start items do not follow the requested buffered set"
                                   ELSE P08!Rel(runs[1].evs, runs[i].evs)], 1)
     [] Mode \in {"C04", "C20"} /\ rel = "sched" ->
-         FirstBad([i \in 1..n |-> IF i = 1 THEN "" ELSE P04!Rel(runs[1].evs, runs[i].evs)], 1)
+         FirstBad([i \in 1..n |-> IF i = 1 THEN "" ELSE IF runs[i].stream THEN P04!RelNoOff(runs[1].evs, runs[i].evs) ELSE P04!Rel(runs[1].evs, runs[i].evs)], 1)
     [] Mode = "C12" /\ rel = "cut" ->
          FirstBad([i \in 1..n |-> IF i = 1 THEN "" ELSE P12!Rel(c.sch, runs[1].inp, runs[1].evs, runs[i].evs, Len(runs[i].inp))], 1)
     [] Mode = "C13" /\ rel = "tol" ->
@@ -145,6 +147,9 @@ Explained(h, runs) ==
                   d == CHOOSE k \in 1..(Len(b) + 1) : k > Len(b) \/ k > Len(a) \/ ~P04!ResSame(a[k], b[k]) IN
               d <= Len(b) /\ Dev!BufferedEofNoClose(runs[i].cfg, b[d]) /\ \A k \in 1..(d - 1) : P04!ResSame(a[k], b[k]))
   THEN "DEV_BUFFERED_EOF_NOCLOSE"
+  ELSE IF Mode = "C20" /\ h.rel = "sched" /\ Dev!Listed("DEV_ASYNC_STRADDLE")
+       /\ \A i \in 2..n : ((IF runs[i].stream THEN P04!RelNoOff(runs[1].evs, runs[i].evs) ELSE P04!Rel(runs[1].evs, runs[i].evs)) # "" => runs[i].multi)
+  THEN "DEV_ASYNC_STRADDLE"
   ELSE ""
 StepEnd(e) ==
   LET runs == IF Mode = "L1" \/ ~("rel" \in DOMAIN c.hdr) THEN <<>> ELSE CollectRuns(c.start + 1, l - 1, <<>>)
